@@ -14,6 +14,9 @@ def user_function(C, st, name, behaviour='marker'):
             return ok(C.v_str('result of ' + name))
         if behaviour == 'identity':
             return ok(copy_value(arg))
+        if behaviour == 'notfound_other':
+            # a user function that itself reports an unknown function under another name (e.g. a dispatcher evaluating a nested call)
+            return err(Adt('EvalexprError', C.VI('EvalexprError', 'FunctionIdentifierNotFound'), [sstr('inner_' + name)]))
         return err(Adt('EvalexprError', C.VI('EvalexprError', 'CustomMessage'), [sstr('fail:' + name)]))
     return Adt('Function', 0, [BoxV(st.new_cell(PyFn(fn, '%s:%s' % (name, behaviour))))])
 
